@@ -32,6 +32,11 @@ PROP = {  # commit subject fragment -> (property, key)
  "tracer stayed disabled after an exception": ("C05", "temporarily-disable-without-finally"),
  "left cached fitness values stale": ("C12", "mutation-insert-after-restore"),
  "abandoned timed-out test thread": ("C32", "abandoned-thread-stops-tracer"),
+ "failed on every with statement": ("C01", "checked-with-statement"),
+ "asserted when a CALL starts": ("C01", "checked-call-first-in-block"),
+ "every slice expression evaluated": ("C01", "checked-binary-slice-result"),
+ "ran property getters and __getattr__": ("C01", "checked-attribute-access-side-effects"),
+ "startswith/endswith with a tuple": ("C01", "seeding-startswith-tuple"),
  "KeyError for a loop in dead code": ("C06", "dead-code-cycle"),
  "beyond chromosome_length": ("C15", "insertion-exceeds-chromosome-length"),
  "statements binding a lambda": ("C24", "seed-parser-drops-lambda-statements"),
